@@ -65,18 +65,35 @@ theorem crash_safe_direct_rotate (cfg : Cfg) (hc : FV.FlwB.CfgMB cfg) (hcap : cf
     ∀ p ∈ (stepT (runOps (init cfg []) ops) .rotate now).2, readAll p.dir = written ops :=
   FV.FlwB.crash_safe_B_rotate cfg hc hcap ops now hp
 
-/-- restart from any crash directory of the direct namings (TimestampsDirect + append under the
-    guard of C06's known finding: the newest stamp must not have `.restart` siblings) -/
+/-- restart from any crash directory of the direct namings, append on or off, no guard (since the
+    `fix:` of C06's finding `C06-tsd-append-after-restart-files` an appending TimestampsDirect
+    logger continues the newest file of the newest stamp, `.restart` siblings included) -/
+theorem restart_from_crash_direct_unguarded (cfg : Cfg) (hc : FV.FlwB.CfgMB cfg)
+    (hcap : cfg.cap = none)
+    (r : RotCfg) (hrot : cfg.rot = some r) (ops : List (Op × Nat × Faults)) (op : Op) (now : Nat)
+    (hop : (∃ b, op = .write b) ∨ op = .rotate)
+    (hp : PlainHistory (ops ++ [(op, now, noFaults)]))
+    (p : Pt) (hpm : p ∈ (stepT (runOps (init cfg []) ops) op now).2)
+    (c : Cfg) (hcrot : c.rot = cfg.rot)
+    (ops2 : List (Op × Nat × Faults)) (hp2 : PlainHistory ops2)
+    (hclk : ∀ o ∈ ops2, o.1.usesClock = true → now ≤ o.2.1) :
+    (viewFiles (runOps (init c p.dir) ops2)).flatten = readAll p.dir ++ written ops2 :=
+  FV.FlwB.restart_from_crash_B cfg hc hcap r hrot ops op now hop hp p hpm c hcrot ops2 hp2 hclk
+
+/-- the guarded form that was provable before the repair (TimestampsDirect + append under the
+    guard of C06's former finding: the newest stamp must not have `.restart` siblings); the guard
+    is no longer used, see `restart_from_crash_direct_unguarded` -/
 theorem restart_from_crash_direct (cfg : Cfg) (hc : FV.FlwB.CfgMB cfg) (hcap : cfg.cap = none)
     (r : RotCfg) (hrot : cfg.rot = some r) (ops : List (Op × Nat × Faults)) (op : Op) (now : Nat)
     (hop : (∃ b, op = .write b) ∨ op = .rotate)
     (hp : PlainHistory (ops ++ [(op, now, noFaults)]))
     (p : Pt) (hpm : p ∈ (stepT (runOps (init cfg []) ops) op now).2)
     (c : Cfg) (hcrot : c.rot = cfg.rot)
-    (hg : r.naming = .timestampsDirect → c.append = true → FV.FlwB.NewestIsBase p.dir)
+    (_hg : r.naming = .timestampsDirect → c.append = true → FV.FlwB.NewestIsBase p.dir)
     (ops2 : List (Op × Nat × Faults)) (hp2 : PlainHistory ops2)
     (hclk : ∀ o ∈ ops2, o.1.usesClock = true → now ≤ o.2.1) :
     (viewFiles (runOps (init c p.dir) ops2)).flatten = readAll p.dir ++ written ops2 :=
-  FV.FlwB.restart_from_crash_B cfg hc hcap r hrot ops op now hop hp p hpm c hcrot hg ops2 hp2 hclk
+  restart_from_crash_direct_unguarded cfg hc hcap r hrot ops op now hop hp p hpm c hcrot ops2 hp2
+    hclk
 
 end FV.C11
